@@ -10,4 +10,12 @@ CONSTANTS
   WithReopen = TRUE
   WithCenter = FALSE
   Repaired = TRUE
+  Contents <- AllContents
+  SizeClasses = {"s"}
+  MaxBig = 0
+  WriteLimit = 128
+  MergeLimit = 333
+  CacheChoices = {FALSE}
+  ReadOptional = FALSE
+  Purge = TRUE
 CHECK_DEADLOCK FALSE
